@@ -25,6 +25,7 @@ def mc_configs(tier):
         ("3x4_E_max", 3, 4, [0, 1, 2, 3], [0, 1, 2], "E", 2, True),
         ("2x4_M_nonsq", 2, 4, [0, 2, 4, 6], [3, 0], "M", 4, True),
         ("4x3_E_nonsq", 4, 3, [0, 3, 6], [4, 3, 2, 1], "E", None, True),
+        ("3x3_M_intmax", 3, 3, [0, 1, 2], [0, 1, 2], "M", ("int", 2), True),
     ]
     t = q + [
         ("3x5_E", 3, 5, [0, 1, 2, 3, 4], [2, 1, 0], "E", None, True),
@@ -40,9 +41,14 @@ def mc_configs(tier):
 
 
 def bounds(metric, k):
-    """(max_distance float, BOUND2, MAXN) for the off-lattice bound k (see DESIGN C06)."""
+    """(max_distance float, BOUND2, MAXN) for the off-lattice bound k (see DESIGN C06).
+    k = ("int", m): Manhattan with the INTEGER max_distance m - every comparison of the code is then exact
+    in floating point (integers below 2^24), so a distance exactly equal to max_distance is decided too."""
     if k is None:
         return None, -1, -1
+    if isinstance(k, (tuple, list)):
+        m = k[1]
+        return float(m), 2 * m * m, m * m
     if metric == "E":
         return math.sqrt(k + 0.25), 2 * k + 1, k
     mx = k + 0.25
@@ -131,6 +137,8 @@ def random_jobs(rng, n, sizes, events=True):
                 b2 = mn = None  # worker derives the rank bounds from the table
         else:
             k = rng.choice([None, None, 1, 2, 4, 7, 12])
+            if metric == "M" and rng.random() < 0.4:
+                k = ("int", rng.choice([1, 2, 3, 5]))
             mx, b2, mn = bounds(metric, k)
         nt = sum(map(sum, mask))
         jobs.append({"H": H, "W": W, "vals": vals, "xs": xs, "ys": ys, "metric": metric, "max": mx,
